@@ -67,7 +67,9 @@ TRUSTED = [
 ASSUMPTIONS = [
     "theorem hypotheses (structure Hyp): dt > 0, threshold >= 0, positive initial ice for a supercooled vial (constants), "
     "and an admissible trajectory (sigma never negative; a vial with ice keeps some) - the last one is monitored on "
-    "every real run (distribution tag 'adm-violated')",
+    "every real run: the clauses of the theorems that assume it are evaluated only on trajectories that satisfy it; runs "
+    "that leave it are counted under the distribution tag 'outside_hypothesis=adm…' (never a violation); generators keep "
+    "dt*Hsum <= 0.85*m*c_p except for a small stream tagged 'unstable-stream'",
     "query times of the counters lie within the process (0 <= t <= last grid time); beyond the last grid time "
     "sigmaCounter(fromStates=True) silently reads column 0 (argmax of an all-False array) - reported in the evidence "
     "distribution, not counted as a violation",
@@ -457,6 +459,33 @@ def compare(case, impl, model):
 # ---------------------------------------------------------------------------
 # the property itself, evaluated on the real run
 # ---------------------------------------------------------------------------
+def _adm_row(row):
+    """monitored hypothesis `Adm` of the C12 theorems on one stored trajectory: sigma never negative and a vial
+    that contains ice keeps some"""
+    seen = False
+    for x in row:
+        if x < 0 or (seen and not x > 0):
+            return False
+        seen = seen or x > 0
+    return True
+
+
+_LIMIT = {}
+
+
+def stable_dt_limit(k, shape):
+    """largest dt with dt * Hsum <= 0.85 * m * c_p (explicit scheme of the loop stays monotone): Hsum is the
+    largest total conductance of a vial (neighbours + surroundings + shelf incl. its scatter)."""
+    if not _LIMIT:
+        from ethz_snow.constants import calculateDerived
+
+        c = calculateDerived(None)
+        _LIMIT["A"], _LIMIT["hl"] = float(c["A"]), float(c["hl"])
+    nb = 6 if shape[2] > 1 else 4
+    hsum = (nb * k.get("int", 0) + 4 * k.get("ext", 0) + k.get("s0", 0) * (1 + 3 * k.get("s_sigma_rel", 0.0))) * _LIMIT["A"]
+    return math.inf if hsum <= 0 else 0.85 * _LIMIT["hl"] / hsum
+
+
 def _first(row, thr):
     for k, x in enumerate(row):
         if x > thr:
@@ -485,6 +514,13 @@ def predicates(case, impl):
     def F(clause, site, cls, detail):
         out.append(Failure(clause=clause, key=f"{clause}|{site}|{cls}", detail=detail))
 
+    # The theorems tnuc_first_ice, Tnuc_step_temperature, tsol_def, tsol_nonneg, fromStates_times_eq and
+    # counter_nuc_stats assume an admissible trajectory (`Hyp.adm`).  Their clauses are evaluated only where that
+    # monitored hypothesis holds: per vial for the per-vial clauses, for the whole run for the counters.  Runs that
+    # leave it (numerically unstable explicit steps) are counted as `outside_hypothesis` in the evidence.
+    adm = [_adm_row(row) for row in Xs]
+    adm_all = all(adm)
+
     # the time vector has one entry per stored column
     if len(t) != impl["ncols"] or impl["ncols"] != N:
         F("time_grid", "run", "length", f"len(_t)={len(t)}, columns={impl['ncols']}, N_timeSteps={N} (dt={dt})")
@@ -493,6 +529,17 @@ def predicates(case, impl):
     for r, i in enumerate(stored):
         k0 = _first(Xs[r], 0.0)
         k1 = _first(Xs[r], solThr)
+        if not adm[r]:
+            # hypothesis-free clauses only
+            if tnuc[i] is not None:
+                kk = tnuc[i] / dt
+                if abs(kk - round(kk)) > 1e-9 * max(1.0, abs(kk)):
+                    F("tnuc_grid", "run", "off-grid", f"vial {i}: t_nuc={tnuc[i]} is not a multiple of dt={dt}")
+                if Tnuc[i] is not None and not Tnuc[i] < impl["T_eq_l"]:
+                    F("Tnuc_supercooled", "run", "not-supercooled", f"vial {i}: T_nuc={Tnuc[i]} >= T_eq_l")
+            if tsol[i] is not None and tnuc[i] is None:
+                F("tsol_only_if_nucleated", "run", "", f"vial {i}: t_sol={tsol[i]} without t_nuc")
+            continue
         if tnuc[i] is not None:
             kk = tnuc[i] / dt
             on_grid = abs(kk - round(kk)) <= 1e-9 * max(1.0, abs(kk))
@@ -540,7 +587,9 @@ def predicates(case, impl):
         ts_s = impl["tnuc_states"]
         Ts_s = impl["Tnuc_states"]
         if not isinstance(ts_s, dict):
-            for i in stored:
+            for r_, i in enumerate(stored):
+                if not adm[r_]:
+                    continue
                 a, b = ts_s[i], tnuc[i]
                 if (a is None) != (b is None) or (a is not None and not close(a, b)):
                     cls = "last-step" if (b is not None and b > tend) else "mismatch"
@@ -550,7 +599,9 @@ def predicates(case, impl):
             F("fromStates_times_eq", "nucleationTimes", "raises", str(ts_s))
         if not isinstance(Ts_s, dict):
             worst = 0.0
-            for i in stored:
+            for r_, i in enumerate(stored):
+                if not adm[r_]:
+                    continue
                 a, b = Ts_s[i], Tnuc[i]
                 if (a is None) != (b is None):
                     if not (b is not None and tnuc[i] is not None and tnuc[i] > tend):
@@ -567,7 +618,9 @@ def predicates(case, impl):
                 if isinstance(a_all, dict):
                     F("fromStates_times_eq", "solidificationTimes", "raises", str(a_all))
                     continue
-                for i in stored:
+                for r_, i in enumerate(stored):
+                    if not adm[r_]:
+                        continue
                     a, b = a_all[i], tsol[i]
                     if (a is None) != (b is None) or (a is not None and not close(a, b)):
                         cls = "last-step" if (tnuc[i] is not None and tnuc[i] > tend) else "mismatch"
@@ -596,7 +649,7 @@ def predicates(case, impl):
             if thr == 0 or thr == solThr:
                 F("counter_stats", "sigmaCounter", "raises", f"thr={thr}: {cst}")
             continue
-        if not full:
+        if not full or not adm_all:
             continue
         for q, c in zip(impl["times"], cst):
             if q > tend or q < 0:
@@ -648,16 +701,9 @@ def classify(case, impl):
         tend = impl["t"][impl["ncols"] - 1]
         if any(x is not None and x > tend for x in impl["tnuc"]):
             tags.append("nucleation-in-last-step")
-        for row in impl["Xs"]:
-            seen = False
-            bad = False
-            for x in row:
-                if x < 0 or (seen and not x > 0):
-                    bad = True
-                seen = seen or x > 0
-            if bad:
-                tags.append("adm-violated")
-                break
+        if not all(_adm_row(row) for row in impl["Xs"]):
+            tags.append("outside_hypothesis=adm(sigma<0 or ice lost)")
+        tags.append("unstable-stream" if case.get("unstable") else "stable-stream")
         for d in impl["perThr"]:
             if not isinstance(d["count_states"], dict) and d["count_states"] and d["count_states"][-1] == 0 and nn > 0:
                 tags.append("beyond-end-query-reads-column-0")
@@ -702,6 +748,25 @@ def _real(rng, big=False):
     for _ in range(rng.choice([0, 0, 1, 1, 2])):
         holds.append([rng.choice([-5, -8, -10, -12, 0]), rng.choice([0, 30, 60, 120, 7.5 * dt])])
     holds = [h for h in holds if stop <= h[0] <= start]
+    unstable = False
+    if rng.random() < 0.03:
+        # explicitly unstable: strong vial-vial coupling with a long step
+        k.update(int=rng.choice([500, 1000]), s0=2000)
+        dt = 10
+    lim = stable_dt_limit(k, shape)
+    if dt > lim:
+        if dt == 10 and k.get("int", 0) >= 500 or rng.random() < 0.25:
+            unstable = True  # small, explicitly tagged stream outside the stable range of the explicit scheme
+        else:
+            ok = [d for d in [10, 5, 2.5, 2, 1.1, 1, 0.7, 0.5, 0.3, 0.1] if d <= lim]
+            if ok and (dt in (0.1, 0.3, 0.7, 1.1)):
+                dt = max(d for d in ok if d in (0.1, 0.3, 0.7, 1.1)) if any(d in (0.1, 0.3, 0.7, 1.1) for d in ok) else ok[0]
+            elif ok:
+                dt = ok[0]
+            else:
+                f = 0.1 / lim
+                k = {kk: (v / (1.2 * f) if kk in ("int", "ext", "s0") else v) for kk, v in k.items()}
+                dt = 0.1
     ramp = (start - stop) / rate + sum(h[1] for h in holds)
     # time for the vials to follow the shelf ~ a few hundred seconds * 1000/K
     need = ramp + 300 * 1000 / K
@@ -730,6 +795,8 @@ def _real(rng, big=False):
                 initIce=rng.choice(["indirect", "direct"]),
                 group=rng.choice(["all", "all", "all", "edge", "corner", "core"]) if n >= 9 and shape[2] == 1 else "all",
                 qfrac=sorted(rng.random() for _ in range(4)) + [0, 1], offgrid=True)
+    if unstable:
+        case["unstable"] = True
     if holds and rng.random() < 0.5:
         case["cn"] = rng.choice([h[0] for h in holds])
     elif rng.random() < 0.1:
